@@ -38,7 +38,8 @@ func AddControl(c *spec.Case) {
 	if c.Config.NodePoolKey != "" && c.Config.NodePoolValue != "" {
 		labels[c.Config.NodePoolKey] = c.Config.NodePoolValue
 	}
-	alloc := v1.ResourceList{v1.ResourceCPU: mq(4000), v1.ResourceMemory: q(8 << 30), v1.ResourcePods: q(20)}
+	// huge, so that generated pods tolerating every taint cannot fill it
+	alloc := v1.ResourceList{v1.ResourceCPU: mq(1000000), v1.ResourceMemory: q(100 << 40), v1.ResourcePods: q(2000)}
 	c.Objects.Nodes = append(c.Objects.Nodes, &v1.Node{ObjectMeta: metav1.ObjectMeta{Name: ControlNode, Labels: labels, UID: "node-ctl"},
 		Spec:   v1.NodeSpec{Taints: []v1.Taint{{Key: "verif/ctl", Value: "true", Effect: v1.TaintEffectNoSchedule}}},
 		Status: v1.NodeStatus{Allocatable: alloc, Capacity: alloc.DeepCopy(), Conditions: []v1.NodeCondition{{Type: v1.NodeReady, Status: v1.ConditionTrue}}}})
@@ -51,6 +52,7 @@ func AddControl(c *spec.Case) {
 			Tolerations: []v1.Toleration{{Key: "verif/ctl", Operator: v1.TolerationOpExists}},
 			Containers:  []v1.Container{{Name: "main", Image: "img", Resources: v1.ResourceRequirements{Requests: v1.ResourceList{v1.ResourceCPU: mq(100), v1.ResourceMemory: q(64 << 20)}}}}},
 		Status: v1.PodStatus{Phase: v1.PodPending}})
+	LabelForNodePool(c)
 }
 
 // Hostile applies n malformed-object mutations to the case and returns their names. The control workload
@@ -316,6 +318,13 @@ func Hostile(c *spec.Case, r *rand.Rand, n int) []string {
 		{"bindrequest-fraction-with-empty-groups", func() bool {
 			for _, p := range o.Pods {
 				if p.Status.Phase == v1.PodPending && p.Spec.NodeName == "" && p.Namespace == "ns" && len(o.Nodes) > 0 {
+					dup := false
+					for _, b := range o.BindRequests {
+						dup = dup || (b.Name == p.Name && b.Namespace == "ns")
+					}
+					if dup {
+						continue
+					}
 					o.BindRequests = append(o.BindRequests, &schedulingv1alpha2.BindRequest{ObjectMeta: metav1.ObjectMeta{Name: p.Name, Namespace: "ns", UID: types.UID("br-e-" + p.Name)},
 						Spec: schedulingv1alpha2.BindRequestSpec{PodName: p.Name, SelectedNode: o.Nodes[0].Name, ReceivedResourceType: "Fraction", SelectedGPUGroups: nil,
 							ReceivedGPU: &schedulingv1alpha2.ReceivedGPU{Count: -1, Portion: "abc"}, BackoffLimit: ptr.To(int32(-1))}})
@@ -349,9 +358,14 @@ func Hostile(c *spec.Case, r *rand.Rand, n int) []string {
 		}},
 	}
 	var applied []string
+	used := map[string]bool{}
 	for tries := 0; len(applied) < n && tries < 40; tries++ {
 		m := muts[r.IntN(len(muts))]
+		if used[m.name] { // object-adding mutations must not run twice (duplicate names)
+			continue
+		}
 		if m.f() {
+			used[m.name] = true
 			applied = append(applied, m.name)
 		}
 	}
